@@ -333,11 +333,25 @@ func mmcChecks(part, parts int) {
 				}
 			}
 		}
+		// one receiver for everything: first a response (written by hand, the
+		// package does not build them), then commands
+		var held mmc.Message
+		engine.Catch(func() { held.Parse([]byte{0xF0, 0x7F, 0x05, 0x07, 0x01, 0x02, 0xF7}) })
 		for dev := 1; dev <= 127; dev++ {
 			for cmd := 1; cmd < 0x40; cmd++ {
 				ctx.Eval()
 				v := mmc.Message{DeviceID: byte(dev), Command: mmc.Command(cmd)}
 				b := v.SysEx()
+				if dev%16 == 3 && cmd%8 == 1 {
+					engine.Catch(func() { held.Parse([]byte{0xF0, 0x7F, byte(dev), 0x07, byte(cmd), 0x02, 0xF7}) })
+				}
+				var fresh mmc.Message
+				e1 := fresh.Parse(b)
+				var e2 error
+				ch := engine.Catch(func() { e2 = held.Parse(b) })
+				if ch.Panicked || (e1 == nil) != (e2 == nil) || e1 == nil && (held.DeviceID != fresh.DeviceID || held.Command != fresh.Command || held.IsResponse != fresh.IsResponse || !bytes.Equal(held.Data, fresh.Data)) {
+					report("mmc:command:receiver-reused", v, b, fmt.Sprintf("parsed into a fresh value: %+v (%v); into one that held a response before: %+v (%v) %s", fresh, e1, held, e2, ch.Value))
+				}
 				var back mmc.Message
 				var err error
 				c := engine.Catch(func() { err = back.Parse(b) })
